@@ -270,6 +270,12 @@ func (ta *tokenAnalysis) sinks(fn *ssa.Function) []tokenSink {
 				if ta.val[x.Call.Args[0]] != tokNone {
 					out = append(out, tokenSink{fn, i, "number parsing", x.Call.Args[0]})
 				}
+			case "strings.Contains", "strings.Index", "strings.LastIndex", "strings.HasPrefix", "strings.HasSuffix", "strings.Count":
+				// a literal that spans more than one grammar token ("q=", ";q", ", ") is matched against header text:
+				// optional whitespace between the tokens makes the test miss
+				if lit, ok := constStr(x.Call.Args[1]); ok && ta.val[x.Call.Args[0]] != tokNone && spansTokens(lit) {
+					out = append(out, tokenSink{fn, i, "multi-token literal \"" + lit + "\"", x.Call.Args[0]})
+				}
 			case "strings.EqualFold":
 				for _, pr := range [][2]ssa.Value{{x.Call.Args[0], x.Call.Args[1]}, {x.Call.Args[1], x.Call.Args[0]}} {
 					if ta.val[pr[0]] != tokNone && ta.val[pr[1]] == tokNone {
@@ -308,6 +314,11 @@ func tokenRule(c *Ctx, fns []*ssa.Function) {
 			n++
 			st := ta.val[s.Val]
 			construct := "header token reaches a " + s.What
+			if strings.HasPrefix(s.What, "multi-token literal") {
+				c.bad(p.fname(fn), "header text is not searched for a "+s.What, p.ipos(s.Instr),
+					"text taken from a header is searched for a literal that spans a separator and a neighbouring token: optional whitespace around ',' ';' '=' (legal in the header grammar) makes the search miss, so the branch taken depends on whitespace")
+				continue
+			}
 			if st == tokCut {
 				where := ""
 				if at := ta.cutAt[s.Val]; at != nil {
@@ -340,4 +351,18 @@ func ruleTokenAll(c *Ctx) {
 	tokenRule(c, c.P.requestPathFuncs())
 }
 
-var _ = strings.Contains
+// spansTokens: the literal holds a separator of the header grammar next to something that is not a separator or
+// a blank (it can only match when no optional whitespace was written there).
+func spansTokens(lit string) bool {
+	hasSep, hasOther := false, false
+	for _, r := range lit {
+		switch r {
+		case ',', ';', '=':
+			hasSep = true
+		case ' ', '\t':
+		default:
+			hasOther = true
+		}
+	}
+	return hasSep && hasOther
+}
